@@ -15,3 +15,84 @@ package types
 // ---- a consensus state reports the client type of its own light client (C13: exported genesis validates) ----
 // verif:func (ConsensusState).ClientType
 //@ ensures [type-agree] result == (&ClientState{}).ClientType()
+
+// ======================= C07: the Tendermint client trusts only sufficiently signed, fresh, newer headers ==========
+// verif:import tmtypes github.com/tendermint/tendermint/types
+// verif:import bytes bytes
+// verif:import exported github.com/teleport-network/teleport/x/xibc/exported
+// verif:import commitmenttypes github.com/teleport-network/teleport/x/xibc/core/commitment/types
+// verif:import sdk github.com/cosmos/cosmos-sdk/types
+
+// expired <=> latest timestamp + trusting period <= now (instants and durations as mathematical integers)
+// verif:func (ClientState).IsExpired
+//@ ensures [within-trusting-period] result <==> ns(latestTimestamp) + sint(cs.TrustingPeriod) <= ns(now)
+
+// Active only if the consensus state at the latest height exists and is still inside the trusting period
+// verif:func (ClientState).Status
+//@ ensures [active-means-fresh] result == exported.Active ==> kvhas(clientStore, host.ConsensusStateKey(cs.LatestHeight)) && first(GetConsensusState(clientStore, cdc, cs.LatestHeight)) != nil && ns(first(GetConsensusState(clientStore, cdc, cs.LatestHeight)).Timestamp) + sint(cs.TrustingPeriod) > ns(blocktime(ctx))
+
+// the validator set supplied as trusted hashes to the next-validators hash stored at the trusted height
+// verif:func checkTrustedHeader
+//@ ensures [trusted-set-is-the-stored-one] result == nil ==> bytes.Equal(consState.NextValidatorsHash, first(tmtypes.ValidatorSetFromProto(header.TrustedValidators)).Hash())
+
+// every argument position of light.Verify is pinned; same revision, strictly newer than the trusted height
+// verif:func checkValidity
+//@ callsite Verify [trusted-header] dollar_trustedHeader.Header.ChainID == chainID && dollar_trustedHeader.Header.Height == int64(header.TrustedHeight.RevisionHeight) && dollar_trustedHeader.Header.Time == consState.Timestamp && dollar_trustedHeader.Header.NextValidatorsHash == consState.NextValidatorsHash
+//@ callsite Verify [sets-and-header] trustedVals == first(tmtypes.ValidatorSetFromProto(header.TrustedValidators)) && untrustedHeader == first(tmtypes.SignedHeaderFromProto(header.SignedHeader)) && untrustedVals == first(tmtypes.ValidatorSetFromProto(header.ValidatorSet))
+//@ callsite Verify [periods-and-clock] trustingPeriod == clientState.TrustingPeriod && now == currentTimestamp && maxClockDrift == clientState.MaxClockDrift && trustLevel == clientState.TrustLevel.ToTendermint()
+//@ ensures [verified] result == nil ==> ncalls("Verify") == 1 && callsok("Verify") && ncalls("checkTrustedHeader") == 1 && callsok("checkTrustedHeader")
+//@ ensures [same-revision] result == nil ==> header.GetHeight().GetRevisionNumber() == header.TrustedHeight.RevisionNumber
+//@ ensures [newer] result == nil ==> header.GetHeight().GetRevisionHeight() > header.TrustedHeight.RevisionHeight
+
+// an accepted header stores exactly its time, app hash and next-validators hash, records the processing time under its
+// height and never lowers the latest height
+// verif:func update
+//@ modifies clientStore
+//@ modifies *clientState
+//@ ensures [consensus-state] result1.Timestamp == header.Header.Time && result1.Root == header.Header.AppHash && result1.NextValidatorsHash == header.Header.NextValidatorsHash
+//@ ensures [latest-is-max] result0.LatestHeight == ite(header.GetHeight().GT(old(clientState.LatestHeight)), as(header.GetHeight(), clienttypes.Height), old(clientState.LatestHeight))
+//@ ensures [never-lowered] !result0.LatestHeight.LT(old(clientState.LatestHeight))
+//@ ensures [processed-time] kvget(clientStore, ProcessedTimeKey(header.GetHeight())) == sdk.Uint64ToBigEndian(uint64(blocktime(ctx).UnixNano()))
+//@ ensures [iteration-key] kvget(clientStore, IterationKey(header.GetHeight())) == host.ConsensusStateKey(header.GetHeight())
+//@ ensures [rest-of-client-kept] result0.ChainId == old(clientState.ChainId) && result0.TrustingPeriod == old(clientState.TrustingPeriod) && result0.MaxClockDrift == old(clientState.MaxClockDrift) && result0.TrustLevel == old(clientState.TrustLevel) && result0.TimeDelay == old(clientState.TimeDelay)
+
+// the header is checked against the consensus state stored at its own trusted height, at block time; nothing is
+// written unless the check passed
+// verif:func (ClientState).CheckHeaderAndUpdateState
+//@ modifies clientStore
+//@ callsite checkValidity [against-stored-trusted-state] *clientState == cs && consState == first(GetConsensusState(clientStore, cdc, as(header, *Header).TrustedHeight)) && dollar_header == as(header, *Header) && currentTimestamp == blocktime(ctx)
+//@ ensures [validated] result2 == nil ==> ncalls("checkValidity") == 1 && callsok("checkValidity") && ncalls("update") == 1
+//@ ensures [reject-clean] result2 != nil ==> clientStore == old(clientStore)
+//@ ensures [returns-update] result2 == nil ==> as(result0, *ClientState) == callres("update", 0) && as(result1, *ConsensusState) == callres("update", 1)
+
+// proofs are honoured only against a stored height not above the latest
+// verif:func produceVerificationArgs
+//@ ensures [not-above-latest] err == nil ==> !cs.LatestHeight.LT(height)
+//@ ensures [stored-height] err == nil ==> kvhas(store, host.ConsensusStateKey(height)) && consensusState == first(GetConsensusState(store, cdc, height))
+
+// ... and only after the configured delay since that height was processed (unsigned 64-bit nanoseconds; the sum is
+// compared as the code computes it, and as mathematical integers when it does not wrap)
+// verif:func verifyDelayPeriodPassed
+//@ ensures [processed] result == nil ==> kvhas(store, ProcessedTimeKey(proofHeight))
+//@ ensures [delay-elapsed] result == nil && sdk.BigEndianToUint64(kvget(store, ProcessedTimeKey(proofHeight))) + delayPeriod >= delayPeriod ==> sdk.BigEndianToUint64(kvget(store, ProcessedTimeKey(proofHeight))) + delayPeriod <= uint64(blocktime(ctx).UnixNano())
+
+// verif:func (ClientState).VerifyPacketCommitment
+//@ callsite VerifyMembership [root-of-proof-height] root == first(GetConsensusState(store, cdc, height)).Root && specs == cs.ProofSpecs && value == commitmentBytes
+//@ callsite VerifyMembership [prefixed-commitment-path] len(as(dollar_path, commitmenttypes.MerklePath).KeyPath) == 2 && as(dollar_path, commitmenttypes.MerklePath).KeyPath[0] == string(cs.MerklePrefix.KeyPrefix) && as(dollar_path, commitmenttypes.MerklePath).KeyPath[1] == host.PacketCommitmentPath(srcChain, dstChain, sequence)
+//@ ensures [guards] result == nil ==> ncalls("produceVerificationArgs") == 1 && callsok("produceVerificationArgs") && ncalls("verifyDelayPeriodPassed") == 1 && callsok("verifyDelayPeriodPassed") && ncalls("VerifyMembership") == 1 && callsok("VerifyMembership")
+//@ callsite produceVerificationArgs [own-client-and-height] dollar_cs == cs && dollar_height == height && dollar_store == store && dollar_proof == proof
+//@ callsite verifyDelayPeriodPassed [own-delay] delayPeriod == cs.TimeDelay && proofHeight == height && dollar_store == store && dollar_ctx == ctx
+//@ callsite ApplyPrefix [commitment-path] len(dollar_path.KeyPath) == 1 && dollar_path.KeyPath[0] == host.PacketCommitmentPath(srcChain, dstChain, sequence)
+
+// verif:func (ClientState).VerifyPacketAcknowledgement
+//@ callsite VerifyMembership [root-of-proof-height] root == first(GetConsensusState(store, cdc, height)).Root && specs == cs.ProofSpecs && value == ackBytes
+//@ callsite VerifyMembership [prefixed-ack-path] len(as(dollar_path, commitmenttypes.MerklePath).KeyPath) == 2 && as(dollar_path, commitmenttypes.MerklePath).KeyPath[0] == string(cs.MerklePrefix.KeyPrefix) && as(dollar_path, commitmenttypes.MerklePath).KeyPath[1] == host.PacketAcknowledgementPath(srcChain, dstChain, sequence)
+//@ ensures [guards] result == nil ==> ncalls("produceVerificationArgs") == 1 && callsok("produceVerificationArgs") && ncalls("verifyDelayPeriodPassed") == 1 && callsok("verifyDelayPeriodPassed") && ncalls("VerifyMembership") == 1 && callsok("VerifyMembership")
+//@ callsite produceVerificationArgs [own-client-and-height] dollar_cs == cs && dollar_height == height && dollar_store == store && dollar_proof == proof
+//@ callsite verifyDelayPeriodPassed [own-delay] delayPeriod == cs.TimeDelay && proofHeight == height && dollar_store == store && dollar_ctx == ctx
+//@ callsite ApplyPrefix [ack-path] len(dollar_path.KeyPath) == 1 && dollar_path.KeyPath[0] == host.PacketAcknowledgementPath(srcChain, dstChain, sequence)
+
+// creating the client records the processing time of the initial consensus state under the client's latest height
+// verif:func (ClientState).Initialize
+//@ modifies clientStore
+//@ ensures [processed-time] result == nil ==> kvget(clientStore, ProcessedTimeKey(cs.LatestHeight)) == sdk.Uint64ToBigEndian(uint64(blocktime(ctx).UnixNano()))
